@@ -134,8 +134,10 @@ Ltac msgrec_typed nested :=
   let m := fresh "m" in
   intros m;
   match goal with |- typed_fields_with typed ?fs (?to ?x) = _ => unfold fs, to end;
-  repeat match goal with |- context [option_map _ ?o] => destruct o end;
-  cbn [option_map];
+  repeat match goal with
+         | |- context [option_map _ ?o] =>
+             lazymatch o with Some _ => fail | None => fail | _ => destruct o; cbn [option_map] end
+         end;
   repeat first [rewrite tf_cons | rewrite tf_nil | rewrite ty_str | rewrite ty_int | rewrite ty_bool
                |rewrite ty_map | rewrite ty_strs | rewrite ty_struct | rewrite ty_structs
                |rewrite ty_ptr_none | rewrite ty_ptr_some];
